@@ -466,6 +466,15 @@ def mk_fn(name, *args):
             if c == 1 and len(m) == 1 and m[0][1] == 1 and m[0][0][0] == 'fn' and m[0][0][1] == 'rev' and len(m[0][0]) == 4 and m[0][0][3][0] == 'B':
                 at = m[0][0]
                 return mk_fn('rev', at[2], B(at[3][1], mk_fn(name, P(Poly.from_key(at[3][2])))))
+    if name in ('argsort', 'argmin', 'argmax') and args and args[-1][0] == 'B':
+        # the ordering of x is the ordering of k*x for a positive factor k (a unit the values are expressed in, a positive constant)
+        inner = Poly.from_key(args[-1][2])
+        if inner.is_monomial():
+            (m, c), = inner.t.items()
+            pos = tuple((a, e) for a, e in m if a[0] == 'sym' and a[1].startswith('unit:'))
+            if c > 0 and (pos or c != 1):
+                rest = tuple((a, e) for a, e in m if not (a[0] == 'sym' and a[1].startswith('unit:')))
+                args = tuple(args[:-1]) + (B(args[-1][1], Poly({rest: Fraction(1)})),)
     if name == 'argsort' and len(args) == 2 and args[0][0] == 'L' and args[1][0] == 'B' and args[0][1] == args[1][1]:
         # argsort of a permutation is its inverse: argsort(argsort(x)) == invperm(argsort(x))
         inner = Poly.from_key(args[1][2])
@@ -775,6 +784,23 @@ def index_at(p, label, idx):
         elif kind == 'fn':
             if any(x[0] == 'L' and x[1] == label for x in a[2:]):
                 r = leaf(a)                                          # an array-valued atom along this axis
+            elif a[1] == 'at' and len(a) == 4 and a[2][0] == 'B' and a[2][1] != label and a[3][0] == 'P':
+                # a gather over another axis around a leaf that also varies along this one: x[i_other, i_this].  Independent gathers commute;
+                # the canonical nesting has the smaller label outside (and the atom is built directly: going through mk_fn would push the
+                # outer gather back in, for ever)
+                l2 = a[2][1]
+                base = go(Poly.from_key(a[2][2]))
+                i2 = go(Poly.from_key(a[3][1]))
+                r = None
+                if base.is_monomial():
+                    (bm, bc), = base.t.items()
+                    if bc == 1 and len(bm) == 1 and bm[0][1] == 1 and bm[0][0][0] == 'fn' and bm[0][0][1] == 'at' and len(bm[0][0]) == 4 and bm[0][0][2][0] == 'B' \
+                            and bm[0][0][2][1] == label and str(label) < str(l2) and l2 not in poly_labels(Poly.from_key(bm[0][0][3][1])) and label not in poly_labels(i2):
+                        inner_leaf = Poly.from_key(bm[0][0][2][2])
+                        swapped_inner = Poly.atom(('fn', 'at', ('B', l2, inner_leaf.key()), ('P', i2.key())))
+                        r = Poly.atom(('fn', 'at', ('B', label, swapped_inner.key()), bm[0][0][3]))
+                if r is None:
+                    r = Poly.atom(('fn', 'at', ('B', l2, base.key()), ('P', i2.key())))
             else:
                 args = []
                 for x in a[2:]:
